@@ -4,6 +4,9 @@ Correspondence: parser harness under catch_unwind on (a) token soup around the d
 past panic witnesses, (c) malformed and well-formed projects; a panic, crash or timeout of the real code is a
 violation with the input as replay.  impl vs model on every case as well."""
 from .pipe import *
+from .c03 import exhaustive_projects
+
+INHERITS_CORPUS = exhaustive_projects()
 import os
 
 RULE = ("token soup over the parser's delimiters with multibyte characters and Unicode whitespace (>= 50% malformed), "
@@ -64,6 +67,18 @@ def mutate_file_text(rng, text):
     return text
 
 
+def has_tail_into_cycle(inherits):
+    """some locale's chain reaches a cycle it is not itself part of"""
+    for start in inherits:
+        seen, cur = [], start
+        while cur in inherits and cur not in seen:
+            seen.append(cur)
+            cur = inherits[cur]
+        if cur in seen and cur != start:
+            return True
+    return False
+
+
 def run(ctx):
     lean_check(ctx, "I18nVerif.Theorems.C09", "C09_")
     lean_check(ctx, "I18nVerif.Theorems.C09Pipeline", "C09_")
@@ -112,6 +127,10 @@ def run(ctx):
                          "files": {(None, "en"): tree}, "extra_cfg": False, "note": note})
     for i in range(ctx.budget(1500, 40000)):
         projects.append(proj.gen_project(rng))
+    # every shape of `inherits` on 4 locales (chains, forks, cycles, tails leading into a cycle, self-reference) x presence patterns:
+    # the walks of `default_of` / `compute` must terminate (the harness dumps both for every key; the generator calls `compute`)
+    tails = [q for q in INHERITS_CORPUS if has_tail_into_cycle(q["inherits"])]
+    projects += rng.sample(tails, min(len(tails), ctx.budget(150, 3000))) + rng.sample(INHERITS_CORPUS, ctx.budget(150, 3000))
     reqs = []
     for p in projects:
         q = proj.harness_req(p)
@@ -163,7 +182,10 @@ def run(ctx):
     binb = cargo_build(ctx, "build_h")
     if binb is not None:
         odd = []
-        for name in ["not a locale", "e", "en--US", "x_y", "toolonglanguagetag", "en-", "123", "é", "en US", "EN-us"]:
+        for name in ["not a locale", "e", "en--US", "x_y", "toolonglanguagetag", "en-", "123", "é", "en US", "EN-us",
+                     # well-formed BCP-47 tags that are more than a language identifier (extensions, private use, variants, scripts)
+                     "ar-u-nu-latn", "th-u-ca-buddhist", "en-x-custom", "en-t-ja", "de-CH-1996", "sr-Latn-RS", "zh-Hant-TW", "en-u-ca-gregory-x-y",
+                     "x-private", "und", "root", "i-klingon", "en-US-u-va-posix"]:
             odd.append({"op": "icu", "work": os.path.join(WORK, "c09b"),
                         "cargo_toml": '[package]\nname = "p"\n[package.metadata.leptos-i18n]\ndefault = "en"\nlocales = ["en", %s]\n' % json.dumps(name),
                         "files": [["locales/en.json", '{"a": "x"}'], [f"locales/{name}.json", '{"a": "y"}']]})
